@@ -1166,6 +1166,15 @@ class State:
                 return AV("pos", Frame("abs"), unit="byte")
             fx = node_frame(x)
             ft = t.frame if t.k == "toks" else None
+            try:
+                generic_x = bool(arg_exprs) and arg_exprs[0] is not None and self.ty.cls(hir.strip_ref(arg_exprs[0])["t"]) == "generic"
+            except Exception:
+                generic_x = False
+            if generic_x and ft is not None and isinstance(ft.base, tuple) and ft.base[0] == "ent":
+                # `named: &impl ToTextRange` next to the entry the slice was cut with: whether `named` *is* that entry (a wrapper of it)
+                # is decided where the function is called - not followed
+                self.sink("S7", None, e["sp"], "node and token slice share one frame", "generic value against an entry's slice")
+                return AV("pos", Frame("abs"), unit="byte")
             self.cmp_frames("S7", fx, ft, e["sp"], "node and token slice share one frame",
                             "the node is in frame `%(a)r` but the token slice handed to to_text_range is in frame `%(b)r`")
             return AV("pos", Frame("abs"), unit="byte")
